@@ -1133,7 +1133,7 @@ func (x *Exec) callFunc(st *State, fr *Frame, ci *callInfo, fn *ssa.Function, ar
 	}
 	if fn.Blocks != nil && strings.Contains(name, "MinterTeam/mhub2") {
 		spec := x.specs.lookup(fn)
-		if spec != nil && spec.HasContract() && fn != x.rootFn && !x.specs.forceInline[name] && (!x.effectsMode || (spec.Pure && !strings.Contains(fn.String(), "Keeper"))) {
+		if spec != nil && spec.HasContract() && fn != x.rootFn && !x.specs.forceInline[name] && !spec.InlineAtCalls && (!x.effectsMode || (spec.Pure && !strings.Contains(fn.String(), "Keeper"))) {
 			x.byContract[name] = true
 			x.applyContract(st, fr, ci, fn, spec, args, k)
 			return
